@@ -1,8 +1,9 @@
 (* Properties/C09.v — wallet keys follow BIP44/49/84/48/45 paths and restore deterministically.
    Only statements closed by [exact lemma], non-vacuity examples and Print Assumptions. *)
 From Coq Require Import ZArith Bool String List.
-From Verif Require Import Lib.Bytes Gen.GenNetworks Gen.GenWalletCfg Model.WalletKeys
-  Proofs.WalletKeys Proofs.WalletKeysBook.
+From Coq.Strings Require Import Byte.
+From Verif Require Import Lib.Bytes Crypto.Hmac Gen.GenNetworks Gen.GenWalletCfg Model.WalletKeys
+  Proofs.WalletKeys Proofs.WalletKeysBook Proofs.WalletKeysIssue Proofs.WalletKeysTables.
 Import ListNotations.
 Open Scope Z_scope.
 
@@ -110,6 +111,107 @@ Theorem account_wallet_keys_derive_from_account_key : forall net wt acct seed pr
   NoDup (map k_path (ws_keys (wallet_run w ops))).
 Proof. exact account_wallet_keys. Qed.
 
+(* --- index issuance: the index new_keys asks for is one above EVERY stored index of the chain (not the index of
+       the most recently created row), so no stored key of the chain carries it; it is a function of the set of
+       rows, whatever order they were created in --- *)
+Theorem next_index_above_every_stored_index : forall X (w : wstate X) purpose net acct wt change k,
+  In k (ws_keys w) -> chain_pred X (ws_cfg w) purpose net acct wt change k = true ->
+  k_index k < next_index X w purpose net acct wt change.
+Proof. exact next_index_above_chain. Qed.
+
+Theorem next_index_is_fresh : forall X (w : wstate X) purpose net acct wt change k,
+  In k (ws_keys w) -> chain_pred X (ws_cfg w) purpose net acct wt change k = true ->
+  k_index k <> next_index X w purpose net acct wt change.
+Proof. exact next_index_fresh. Qed.
+
+Theorem next_index_is_highest_plus_one : forall X (w : wstate X) purpose net acct wt change,
+  (next_index X w purpose net acct wt change = 0 /\
+   forall k, In k (ws_keys w) -> chain_pred X (ws_cfg w) purpose net acct wt change k = false) \/
+  (exists k, In k (ws_keys w) /\ chain_pred X (ws_cfg w) purpose net acct wt change k = true /\
+             next_index X w purpose net acct wt change = k_index k + 1).
+Proof. exact next_index_is_succ_of_highest. Qed.
+
+Theorem next_index_ignores_creation_order : forall X (w w' : wstate X) purpose net acct wt change,
+  ws_cfg w = ws_cfg w' -> Permutation.Permutation (ws_keys w) (ws_keys w') ->
+  next_index X w purpose net acct wt change = next_index X w' purpose net acct wt change.
+Proof. exact next_index_order_independent. Qed.
+
+(* --- in every reachable state the address_index column is the child number of the last path element, and two
+       rows under one parent never carry the same index --- *)
+Theorem index_column_is_last_path_element : forall net wt acct seed w ops k,
+  wallet_from_seed net wt acct seed = Some w ->
+  In k (ws_keys (wallet_run w ops)) ->
+  k_path k <> [] -> k_index k = fst (last (k_path k) (0, false)) mod H31.
+Proof. exact wallet_index_matches_path. Qed.
+
+Theorem no_two_siblings_share_an_index : forall net wt acct seed w ops k1 k2 p i1 i2 h,
+  wallet_from_seed net wt acct seed = Some w ->
+  In k1 (ws_keys (wallet_run w ops)) -> In k2 (ws_keys (wallet_run w ops)) ->
+  k_path k1 = p ++ [(i1, h)] -> k_path k2 = p ++ [(i2, h)] ->
+  0 <= i1 < H31 -> 0 <= i2 < H31 ->
+  k_index k1 = k_index k2 -> k1 = k2.
+Proof. exact wallet_sibling_indices_distinct. Qed.
+
+(* --- Wallet.keys(...) and its wrappers list exactly the stored rows that pass every given filter, each once --- *)
+Theorem listing_is_exactly_the_filter : forall X (w : wstate X) acct chg depth used wt net k,
+  In k (lib_keys_query X w acct chg depth used wt net) <->
+  In k (ws_keys w) /\ keys_query_pred X (ws_cfg w) acct chg depth used wt net k = true.
+Proof. exact keys_query_exact. Qed.
+
+Theorem listing_never_repeats : forall X (w : wstate X) acct chg depth used wt net,
+  NoDup (map k_path (ws_keys w)) -> NoDup (map k_path (lib_keys_query X w acct chg depth used wt net)).
+Proof. exact keys_query_no_repeats. Qed.
+
+Theorem payment_and_change_listings_are_sound : forall X (w : wstate X) change acct used net k,
+  In k (lib_keys_address_chain X w change acct used net) ->
+  In k (ws_keys w) /\ k_change k = Some change /\ row_depth X (ws_cfg w) k = key_depth (ws_cfg w).
+Proof. exact keys_address_chain_sound. Qed.
+
+(* --- creation from a mnemonic sentence AND passphrase: the wallet of the BIP39 seed of both --- *)
+Theorem mnemonic_wallet_is_wallet_of_bip39_seed : forall net wt acct sentence passphrase,
+  wallet_from_mnemonic net wt acct sentence passphrase =
+  wallet_from_seed net wt acct (pbkdf2_hmac_sha512 sentence (bip39_salt_prefix ++ passphrase) 2048 64).
+Proof. exact mnemonic_wallet_is_seed_wallet. Qed.
+
+Theorem mnemonic_wallet_keys_derive_from_bip39_master : forall net wt acct sentence passphrase m w ops k,
+  spec_master (spec_bip39_seed sentence passphrase) = Some m ->
+  wallet_from_mnemonic net wt acct sentence passphrase = Some w ->
+  In k (ws_keys (wallet_run w ops)) ->
+  derive_with lib_subkey m (k_path k) = Some (k_x k).
+Proof. exact mnemonic_wallet_keys. Qed.
+
+Theorem mnemonic_restore_reproduces_addresses :
+  forall sentence passphrase net1 wt1 acct1 w1 ops1 net2 wt2 acct2 w2 ops2 k1 k2,
+  wallet_from_mnemonic net1 wt1 acct1 sentence passphrase = Some w1 ->
+  wallet_from_seed net2 wt2 acct2 (spec_bip39_seed sentence passphrase) = Some w2 ->
+  In k1 (ws_keys (wallet_run w1 ops1)) -> In k2 (ws_keys (wallet_run w2 ops2)) ->
+  k_path k1 = k_path k2 -> k_net k1 = k_net k2 -> k_wt k1 = k_wt k2 ->
+  key_address k1 = key_address k2 /\ key_wif k1 = key_wif k2.
+Proof. exact mnemonic_restore_same_address. Qed.
+
+(* --- multisig wallets: while keys are created one at a time by new_key, the next index is one no stored key has
+       (known class multisig_address_index: bulk creation and explicit paths store the call's address_index
+       argument instead of the key's own index - refuted below) --- *)
+Theorem multisig_single_new_key_is_fresh : forall rows,
+  ms_cols_ok rows ->
+  ~ In (ms_next_index rows) (map mr_pos rows) /\
+  snd (ms_new_keys rows 1) = [ms_next_index rows] /\
+  ms_cols_ok (fst (ms_new_keys rows 1)) /\
+  In (ms_next_index rows) (map mr_pos (fst (ms_new_keys rows 1))).
+Proof. exact ms_single_new_key_is_fresh. Qed.
+
+(* --- the regenerated tables are the documented ones (frozen copy in Proofs/WalletKeysTables.v) --- *)
+Theorem network_tables_are_the_documented_ones : map network_view all_networks = spec_network_rows.
+Proof. exact network_tables_match_frozen. Qed.
+
+Theorem coin_type_lookup_is_documented : forall name,
+  coin_of name = option_map row_coin (find_row name spec_network_rows).
+Proof. exact coin_of_is_frozen. Qed.
+
+Theorem structure_table_is_the_documented_one : forall wt ms,
+  exists v, In (wt, ms, v) spec_structures /\ lib_key_structure wt ms = Some v.
+Proof. exact key_structure_is_frozen. Qed.
+
 (* --- non-vacuity --- *)
 Example documented_paths :
   spec_path Segwit false 0 2 1 5 0 = [(84, true); (0, true); (2, true); (1, false); (5, false)] /\
@@ -140,6 +242,64 @@ Example explicit_path_makes_a_gap_on_request :
                 ONewKeys None 0 None None 1] = Some [0; 7; 8].
 Proof. vm_compute. reflexivity. Qed.
 
+(* indices requested out of order (7, then 3): new_key continues after the HIGHEST index, also after a reopen;
+   the rows are shown in creation order *)
+Example out_of_order_requests_then_new_keys :
+  demo_indices [OKeysForPath [(0, false); (7, false)] false None 0 0 None None 1;
+                OKeysForPath [(0, false); (3, false)] false None 0 0 None None 1;
+                ONewKeys None 0 None None 1; ONewKeys None 0 None None 2; OReopen;
+                ONewKeys None 0 None None 1; OGetKeys None 0 None None 2] = Some [0; 7; 3; 8; 9; 10; 11].
+Proof. vm_compute. reflexivity. Qed.
+
+(* a bulk range that overlaps existing keys creates only the missing ones; the next new key follows the highest *)
+Example bulk_range_over_existing_keys :
+  demo_indices [OKeysForPath [(0, false); (5, false)] false None 0 0 None None 1;
+                OKeysForPath [] false None 0 3 None None 4;
+                ONewKeys None 0 None None 1] = Some [0; 5; 3; 4; 6; 7].
+Proof. vm_compute. reflexivity. Qed.
+
+(* the listings of the demo wallet: payment keys, change keys, and the rows of one account at every depth >= 3 *)
+Example listings_of_a_history :
+  match demo_wallet with
+  | Some w =>
+      let w' := run unit (fun _ _ => Some tt) w [ONewKeys None 0 None None 2; ONewKeys None 1 None None 1] in
+      (map k_index (lib_keys_address_chain unit w' 0 None None None),
+       map k_index (lib_keys_address_chain unit w' 1 None None None),
+       map (fun k => length (k_path k)) (lib_keys_query unit w' (Some 0) None None None None None))
+  | None => ([], [], [])
+  end = ([0; 1; 2], [0], [3; 4; 5; 5; 5; 4; 5]%nat).
+Proof. vm_compute. reflexivity. Qed.
+
+(* known class multisig_address_index: get_keys(number_of_keys = 3) on an empty multisig wallet hands out positions
+   0, 1, 2, all stored with index 0; new_key then hands out position 1 again, and again *)
+Example multisig_bulk_then_new_key_refuted :
+  let rows := fst (ms_new_keys [] 3) in
+  snd (ms_new_keys [] 3) = [0; 1; 2] /\ map mr_col rows = [0; 0; 0] /\
+  snd (ms_new_keys rows 1) = [1] /\ snd (ms_new_keys (fst (ms_new_keys rows 1)) 1) = [1].
+Proof. vm_compute. repeat split; reflexivity. Qed.
+
+(* ... and key_for_path([0, 7]) then key_for_path([0, 3]): both stored with index 0, so new_key hands out position 1,
+   2, then the existing 3 (a key handed out before) for ever *)
+Example multisig_explicit_path_then_new_key_refuted :
+  let r1 := fst (ms_key_for_explicit_path (fst (ms_key_for_explicit_path (fst (ms_new_keys [] 1)) 7)) 3) in
+  let r2 := fst (ms_new_keys r1 1) in
+  let r3 := fst (ms_new_keys r2 1) in
+  snd (ms_new_keys r1 1) = [1] /\ snd (ms_new_keys r2 1) = [2] /\ snd (ms_new_keys r3 1) = [3] /\
+  snd (ms_new_keys (fst (ms_new_keys r3 1)) 1) = [3].
+Proof. vm_compute. repeat split; reflexivity. Qed.
+
+Example multisig_one_at_a_time :
+  snd (ms_new_keys (fst (ms_new_keys (fst (ms_new_keys [] 1)) 1)) 1) = [2].
+Proof. vm_compute. reflexivity. Qed.
+
+Example frozen_rows_present :
+  find_row "litecoin_testnet" spec_network_rows =
+    Some ("litecoin_testnet"%string, 1, [x6f], [x3a], [x74; x6c; x74; x63],
+          [Some ([x04; x36; xf6; xe1], [x04; x36; xef; x7d]); Some ([x04; x36; xf6; xe1], [x04; x36; xef; x7d]);
+           Some ([x04; x36; xf6; xe1], [x04; x36; xef; x7d])]) /\
+  coin_of "dogecoin" = Some 3.
+Proof. split; vm_compute; reflexivity. Qed.
+
 Print Assumptions path_is_documented.
 Print Assumptions structure_table_total.
 Print Assumptions account_level_path_is_documented.
@@ -153,3 +313,19 @@ Print Assumptions new_keys_issue_next_index.
 Print Assumptions restore_deterministic.
 Print Assumptions reopen_changes_nothing.
 Print Assumptions account_wallet_keys_derive_from_account_key.
+Print Assumptions next_index_above_every_stored_index.
+Print Assumptions next_index_is_fresh.
+Print Assumptions next_index_is_highest_plus_one.
+Print Assumptions next_index_ignores_creation_order.
+Print Assumptions index_column_is_last_path_element.
+Print Assumptions no_two_siblings_share_an_index.
+Print Assumptions listing_is_exactly_the_filter.
+Print Assumptions listing_never_repeats.
+Print Assumptions payment_and_change_listings_are_sound.
+Print Assumptions mnemonic_wallet_is_wallet_of_bip39_seed.
+Print Assumptions mnemonic_wallet_keys_derive_from_bip39_master.
+Print Assumptions mnemonic_restore_reproduces_addresses.
+Print Assumptions network_tables_are_the_documented_ones.
+Print Assumptions coin_type_lookup_is_documented.
+Print Assumptions structure_table_is_the_documented_one.
+Print Assumptions multisig_single_new_key_is_fresh.
